@@ -26,7 +26,9 @@ ISM = dict(elements=["e", "H", "D", "He", "C", "N", "O", "F", "Na", "Mg", "Si", 
 # isotopes as user elements: symbols that start with digits, next to a numbered surface group
 ISOTOPES = dict(elements=["e", "H", "D", "T", "He3", "He", "C", "13C", "N", "15N", "O", "18O"], pseudo=["CR", "PHOTON", "CRPHOT", "o", "p"],
                 repl={}, grain="GRAIN", surface="#")
-CONFIGS = {"default": DEFAULT, "cloud": CLOUD, "deuterium": DEUT, "Gprefix": GPREFIX, "ism": ISM, "isotopes": ISOTOPES}
+# an element table with NO pseudo-element: nothing of the default tables may leak in (CRPHOT, oH2, X, M, g are no names here)
+NOPSEUDO = dict(elements=["e", "H", "He", "C", "N", "O", "Mg", "Si", "S", "Fe"], pseudo=[], repl={}, grain="GRAIN", surface="#")
+CONFIGS = {"default": DEFAULT, "cloud": CLOUD, "deuterium": DEUT, "Gprefix": GPREFIX, "ism": ISM, "isotopes": ISOTOPES, "nopseudo": NOPSEUDO}
 
 MASS = {}
 for e in chemistrydata.periodic_table + chemistrydata.isotopes_table:
@@ -139,6 +141,22 @@ def unambiguous(cfg, name, spans):
     return True
 
 
+def uncovered(cfg, name):
+    """letters of the name that lie inside no occurrence of any configured symbol: such a name cannot be a
+    sequence of configured symbols, counts and charge signs (C08.parse_covers), so it must be rejected"""
+    cov = [False] * len(name)
+    for c in cfg["elements"] + cfg["pseudo"] + [cfg["grain"], cfg["surface"]] + list(cfg["repl"]):
+        t = unescape(c)
+        if not t:
+            continue
+        k = name.find(t)
+        while k >= 0:
+            for j in range(k, k + len(t)):
+                cov[j] = True
+            k = name.find(t, k + 1)
+    return [ch for j, ch in enumerate(name) if ch.isalpha() and not cov[j]]
+
+
 def expected(cfg, comp):
     counts = {}
     for sym, cnt in comp["tokens"]:
@@ -166,7 +184,7 @@ def gen_comp(rng, cfg):
         comp["sgroup"] = rng.choice([0, 0, 0, 1, 2])
     if labels and rng.random() < 0.2:
         comp["label"] = rng.choice(labels)
-    comp["charge"] = rng.choice([0, 0, 0, 1, 1, -1, 2, 3, 4, -2]) if not comp.get("surface") else 0
+    comp["charge"] = rng.choice([0, 0, 0, 1, 1, -1, 2, 3, 4, -2]) if not comp.get("surface") else rng.choice([0, 0, 0, 0, 1, -1])
     return comp
 
 
@@ -206,7 +224,11 @@ def flush(res, model, cfg_name, cfg, batch):
             res.case(("c08", cfg_name, name), nontrivial=True)
             continue
         if comp.get("skip"):
-            res.count("fixed-name(correspondence only)")
+            unc = uncovered(cfg, name)
+            if unc and i[0] != "err":
+                res.violation("oracle", f"name {name!r} under {cfg_name}: the letters {unc} lie inside no occurrence of a configured symbol, "
+                                        f"yet the name is accepted and read as {i[2]}", case)
+            res.count("fixed-name(must be rejected: uncovered letters)" if unc else "fixed-name(correspondence only)")
             res.case(("c08", cfg_name, name), nontrivial=True)
             continue
         unamb = unambiguous(cfg, name, spans)
@@ -314,7 +336,9 @@ def pair_check(res, model, cfg_name, cfg, rng):
     pool = ["e-", "E", "E-", "e", "H", "H+", "GRAIN", "GRAIN0", "GRAIN-", "GRAIN0-", "GRAIN1", cfg["surface"] + "CO", cfg["surface"] + "H2O",
             "CO", "H2O", cfg["surface"] + "1CO", "H2", "oH2", "pH2", "He+", "He++",
             # isomers and labelled pairs: one composition, different species
-            "HCN", "HNC", cfg["surface"] + "HCN", cfg["surface"] + "HNC", cfg["surface"] + "oH2", cfg["surface"] + "pH2"]
+            "HCN", "HNC", cfg["surface"] + "HCN", cfg["surface"] + "HNC", cfg["surface"] + "oH2", cfg["surface"] + "pH2",
+            # one parent in several charge states, in the gas and on the surface
+            "HCO", "HCO+", "HCO-", cfg["surface"] + "HCO", cfg["surface"] + "HCO+", cfg["surface"] + "HCO-", cfg["surface"] + "H+", cfg["surface"] + "H"]
     configure(cfg)
     objs = {}
     for n in pool:
@@ -376,9 +400,9 @@ def run(res, info):
     rng = random.Random(res.seed * 7919 + 8)
     model = fw.Model() if info["ok"] else None
     res.rule = ("names rendered from compositions (optional surface prefix + group, optional label, 1-4 element tokens with counts "
-                "0/1/2/3/10/12, 0-4 charges, grains with group numbers) over six table configurations (default, UCLCHEM upper-case "
+                "0/1/2/3/10/12, 0-4 charges, grains with group numbers) over seven table configurations (an element table with no pseudo-element, default, UCLCHEM upper-case "
                 "with replacement, deuterium, 'G' surface prefix, ism, isotope symbols starting with digits) + all adjacent element pairs + a malformed stream with a "
-                "foreign character; non-trivial = unambiguous rendering or malformed; ==/hash on all pairs of 27 spellings")
+                "foreign character; non-trivial = unambiguous rendering or malformed; ==/hash on all pairs of 35 spellings")
     res.assumptions = ["oracle premise: the rendering passes the decidable `unambiguous` test (every spurious occurrence of a "
                        "component overlaps an intended token of higher priority)",
                        "the '*' label is outside the premise (known finding: counted as an element)"]
@@ -396,7 +420,8 @@ def run(res, info):
             batch.append((cfg_name, malformed(rng, cfg), None, None))
         # fixed interesting names
         for nm in ["Si", "SiO", "He", "HeH+", "CO", "Co", "H2*", "c-C3H2", "l-C3H", "CRPHOT", "CRP", "X", "M", "g", "e-", "E", "E-", "e", "",
-                   "+", "-", "H+-", "GRAIN", "GRAIN0", "GRAIN-", "GRAIN0GRAIN1", "##CO", "#", "#1CO", "H0", "C60", "C123456789012345678901234567890"]:
+                   "+", "-", "H+-", "GRAIN", "GRAIN0", "GRAIN-", "GRAIN0GRAIN1", "##CO", "#", "#1CO", "H0", "C60", "C123456789012345678901234567890",
+                   "oH2", "pH2", "PHOTON", "CR", "XRAY", "NaH+", "MH+", "HM", "Xe", "gH", "mD2", "#oH2", "Cl", "Na", "P", "F", "D", "T", "Ar", "Ne", "K", "Ti"]:
             batch.append((cfg_name, nm, {"tokens": [], "skip": True}, [(0, 0, "?")]))
         flush(res, model, cfg_name, cfg, batch)
         pair_check(res, model, cfg_name, cfg, rng)
